@@ -57,6 +57,7 @@ type rapidContext struct {
 	server                   *rapi.Server
 	appCtx                   appctx.ApplicationContext
 	initDone                 bool
+	invokeRuntimeDoneSent    bool // the runtime-done event of the invocation in flight has been sent
 	supervisor               processSupervisor
 	runtimeDomainGeneration  uint32
 	initFlow                 core.InitFlowSynchronization
@@ -514,6 +515,7 @@ func doInvoke(execCtx *rapidContext, invokeRequest *interop.Invoke, mx *invokeMe
 		if err := execCtx.eventsAPI.SendInvokeRuntimeDone(runtimeDoneEventData); err != nil {
 			log.Errorf("Failed to send INVOKE RTDONE: %s", err)
 		}
+		execCtx.invokeRuntimeDoneSent = true
 
 		// Extensions overhead
 		if execCtx.HasActiveExtensions() {
@@ -718,8 +720,8 @@ func reinitialize(execCtx *rapidContext) {
 func handleReset(execCtx *rapidContext, resetEvent *interop.Reset, runtimeStartedTime int64, invokeResponseMetrics *interop.InvokeResponseMetrics) (interop.ResetSuccess, *interop.ResetFailure) {
 	log.Warnf("Reset initiated: %s", resetEvent.Reason)
 
-	// Only send RuntimeDone event if we get a reset during an Invoke
-	if resetEvent.Reason == "failure" || resetEvent.Reason == "timeout" {
+	// Only send RuntimeDone event if we get a reset during an Invoke, and only if the invoke has not sent one already
+	if (resetEvent.Reason == "failure" || resetEvent.Reason == "timeout") && !execCtx.invokeRuntimeDoneSent {
 		var errorType *string
 		if resetEvent.Reason == "failure" {
 			firstFatalError, found := appctx.LoadFirstFatalError(execCtx.appCtx)
@@ -751,6 +753,7 @@ func handleReset(execCtx *rapidContext, resetEvent *interop.Reset, runtimeStarte
 		if err := execCtx.eventsAPI.SendInvokeRuntimeDone(runtimeDoneEventData); err != nil {
 			log.Errorf("Failed to send INVOKE RTDONE: %s", err)
 		}
+		execCtx.invokeRuntimeDoneSent = true
 	}
 
 	extensionsResetMs, resetTimeout, _ := execCtx.shutdownContext.shutdown(execCtx, resetEvent.DeadlineNs, resetEvent.Reason)
@@ -1002,6 +1005,7 @@ func sendInvokeStartLogEvent(execCtx *rapidContext, invokeRequestID string, trac
 	if err := execCtx.eventsAPI.SendInvokeStart(invokeStartData); err != nil {
 		log.Errorf("Failed to send INVOKE START: %s", err)
 	}
+	execCtx.invokeRuntimeDoneSent = false
 }
 
 // This function will log a line if AWS_ACCESS_KEY_ID, AWS_SECRET_ACCESS_KEY, or AWS_SESSION_TOKEN is missing
